@@ -133,6 +133,21 @@ func main() {
 			fmt.Println("TOLERATES", k)
 		}
 		os.Exit(0)
+	case "validators":
+		p, err := Load(os.Args[2])
+		if err != nil {
+			fmt.Println(err)
+			os.Exit(2)
+		}
+		r := NewRun("X", "quick", 0)
+		checkValidatorUse(r, p, "X.V", func(fn *FuncNode) bool { return true }, 0)
+		for _, o := range r.Obs {
+			if !o.OK {
+				fmt.Printf("%s | %s | %v\n", o.Pos, o.Construct, o.Path)
+			}
+		}
+		fmt.Println(r.Stats)
+		os.Exit(0)
 	case "partialcopy":
 		p, err := Load(os.Args[2])
 		if err != nil {
